@@ -11,7 +11,11 @@ EXTRA = {  # seed -> properties to run besides the one in its name
     "REVERT_code_id_refresh": ["C12"], "REVERT_func_code_race": ["C11"], "REVERT_mkdirp_race": ["C11"],
     "REVERT_memmap_views": ["C19"], "REVERT_torn_multibyte": ["C05"], "REVERT_pre_dispatch_zero": ["C01"],
     "REVERT_sequential_verbose": ["C04"], "REVERT_predispatch_all_error": ["C04"], "REVERT_setup_failure_running": ["C04"],
-    "REVERT_mkdirp_two_clears": ["C11"], "C02_A": ["C02", "C07"], "C06_A": ["C06", "C07"], "C15_B": ["C15", "C10"],
+    "REVERT_mkdirp_two_clears": ["C11"], "REVERT_interrupted_wipe": ["C05"], "REVERT_function_table_race": ["C11"],
+    "REVERT_mmap_reload": ["C11"], "REVERT_forced_call_code": ["C12", "C06"], "REVERT_kwargs_self_func": ["C06"],
+    "REVERT_nested_partial_orders": ["C08"], "REVERT_detect_compressor_position": ["C03"],
+    "REVERT_method_self_keyword": ["C07"], "REVERT_tracker_shutdown_warning": ["C20"],
+    "REVERT_foreign_thread_close": ["C16"], "REVERT_input_base_exception": ["C04"], "C02_A": ["C02", "C07"], "C06_A": ["C06", "C07"], "C15_B": ["C15", "C10"],
 }
 only = sys.argv[1:] 
 res_path = os.path.join(ROOT, "seeded", "RESULTS.json")
